@@ -23,7 +23,7 @@ def run(tier, seed, replay=None):
                      "get_scheduler is lexically scoped (only with_query_value replaces it); schedule() is resolved to the scheduler in scope at connect",
                      "algorithm set of Calc/Ctx.lean; task<> (C++20 coroutines), async_manual_reset_event, async_mutex, async_pass are not in the calculus",
                      "thread identity is not modelled: `always` and `always_inline` coincide in the single-threaded harness"],
-        trusted_extra=["harness/evt/ctx.cpp + ctx_common.hpp + typed_common.hpp", "tools/ctx.py, tools/gen_typed.py (generators, diff, rb_mode prediction)",
+        trusted_extra=["harness/evt/ctx.cpp + ctx_common.hpp + typed_common.hpp", "tools/ctx.py, tools/gen_typed.py (generators, diff)",
                        "g++ 12 -std=gnu++20, ASan/UBSan"],
         explanation="Theorems (Props/C11, all expressions / leaf scripts / event sequences): via_completes_on_scheduler, typed_via_completes_on_scheduler "
                     "(root signal only inside `run c`), on_starts_on_scheduler (nothing of the child happens before context c runs an item), sync_sound / "
